@@ -630,7 +630,7 @@ type grule struct {
 }
 
 func runRules(rn *runner, r *emit.Rng, w *emit.Writer, fails *[]failure, scale int) {
-	for i := 0; i < 60*scale; i++ {
+	for i := 0; i < 160*scale; i++ {
 		ng := r.Intn(3)
 		type ggroup struct {
 			name, file string
@@ -667,6 +667,23 @@ func runRules(rn *runner, r *emit.Rng, w *emit.Writer, fails *[]failure, scale i
 				}
 				f = append(f, `"name":`+jstr(ru.name), `"query":`+jstr(ru.query), `"health":`+jstr(ru.health), `"labels":`+string(lb),
 					`"evaluationTime":`+strconv.FormatFloat(ru.evalTime, 'g', -1, 64), `"lastEvaluation":"2024-01-02T03:04:05.678Z"`)
+				if i%4 == 1 && r.Chance(1, 3) {
+					// a field of the wrong JSON type: the rule decodes neither as alerting nor as recording
+					bad := []string{`"name":7`, `"query":["q"]`, `"health":7`, `"labels":["l"]`, `"labels":{"a":1}`, `"evaluationTime":"fast"`,
+						`"lastEvaluation":"yesterday"`, `"lastEvaluation":7`, `"lastError":{}`, `"name":{}`, `"query":true`}
+					k := r.Intn(len(bad))
+					key := bad[k][:strings.Index(bad[k], ":")+1]
+					for fi := range f {
+						if strings.HasPrefix(f[fi], key) {
+							f[fi] = bad[k]
+						}
+					}
+					if key == `"lastError":` {
+						f = append(f, bad[k])
+					}
+					expectErr = true
+					ru.lastError = "" // already emitted (or replaced) above
+				}
 				if ru.lastError != "" {
 					f = append(f, `"lastError":`+jstr(ru.lastError))
 				}
@@ -677,11 +694,32 @@ func runRules(rn *runner, r *emit.Rng, w *emit.Writer, fails *[]failure, scale i
 					j := r.Intn(k + 1)
 					f[k], f[j] = f[j], f[k]
 				}
+				if i%16 == 7 && r.Bool() {
+					// the type given twice, the second time with the wrong JSON type
+					f = append(f, `"type":5`)
+					expectErr = true
+				}
 				rparts = append(rparts, "{"+strings.Join(f, ",")+"}")
 				gr.rules = append(gr.rules, ru)
 			}
-			parts = append(parts, `{"name":`+jstr(gr.name)+`,"file":`+jstr(gr.file)+`,"interval":`+strconv.FormatFloat(gr.interval, 'g', -1, 64)+
-				`,"rules":[`+strings.Join(rparts, ",")+`]}`)
+			gname, gfile, gint, grules := jstr(gr.name), jstr(gr.file), strconv.FormatFloat(gr.interval, 'g', -1, 64), "["+strings.Join(rparts, ",")+"]"
+			if i%8 == 5 && r.Chance(1, 2) {
+				// a group field of the wrong JSON type
+				switch r.Intn(5) {
+				case 0:
+					gname = "7"
+				case 1:
+					gfile = `["f"]`
+				case 2:
+					gint = `"often"`
+				case 3:
+					grules = `{"r":1}`
+				default:
+					grules = `"rules"`
+				}
+				expectErr = true
+			}
+			parts = append(parts, `{"name":`+gname+`,"file":`+gfile+`,"interval":`+gint+`,"rules":`+grules+`}`)
 			groups = append(groups, gr)
 		}
 		doc := `{"groups":[` + strings.Join(parts, ",") + `]}`
@@ -702,7 +740,7 @@ func runRules(rn *runner, r *emit.Rng, w *emit.Writer, fails *[]failure, scale i
 		what := ""
 		switch {
 		case expectErr && err == nil:
-			what = "a rule without a valid type was decoded without an error"
+			what = "a rules document with a rule of no valid type or with a field of the wrong JSON type was decoded without an error"
 		case !expectErr && err != nil:
 			what = "a valid rules document was rejected: " + err.Error()
 		case !expectErr:
